@@ -12,7 +12,9 @@ pub struct Chunk {
 
 #[derive(Clone, Debug)]
 pub enum BodySpec {
-    Chunked { chunks: Vec<Chunk>, last_repr: Vec<u8>, last_ext: Vec<u8> },
+    /// `trailers`: the field lines of the trailer section (RFC 9112 §7.1.2), each rendered `line\r\n`
+    /// between the last-chunk line and the final CRLF
+    Chunked { chunks: Vec<Chunk>, last_repr: Vec<u8>, last_ext: Vec<u8>, trailers: Vec<Vec<u8>> },
     Length(Vec<u8>),
     Close(Vec<u8>),
 }
@@ -83,7 +85,7 @@ impl RespSpec {
     }
     pub fn body_bytes(&self) -> Vec<u8> {
         match &self.body {
-            BodySpec::Chunked { chunks, last_repr, last_ext } => {
+            BodySpec::Chunked { chunks, last_repr, last_ext, trailers } => {
                 let mut w = Vec::new();
                 for c in chunks {
                     w.extend_from_slice(&c.size_repr);
@@ -94,7 +96,12 @@ impl RespSpec {
                 }
                 w.extend_from_slice(last_repr);
                 w.extend_from_slice(last_ext);
-                w.extend_from_slice(b"\r\n\r\n");
+                w.extend_from_slice(b"\r\n");
+                for t in trailers {
+                    w.extend_from_slice(t);
+                    w.extend_from_slice(b"\r\n");
+                }
+                w.extend_from_slice(b"\r\n");
                 w
             }
             BodySpec::Length(b) | BodySpec::Close(b) => b.clone(),
@@ -212,6 +219,30 @@ pub fn gen_fields(rng: &mut Rng, max: usize) -> Vec<(Vec<u8>, Vec<u8>)> {
         .collect()
 }
 
+/// The trailer section of a chunked body: usually empty; otherwise 1–5 field lines (up to the 100 the
+/// client accepts in one case in forty), `name: value` with token names and printable values.
+pub fn gen_trailers(rng: &mut Rng) -> Vec<Vec<u8>> {
+    if !rng.chance(1, 4) {
+        return vec![];
+    }
+    let n = if rng.chance(1, 10) { *rng.pick(&[99usize, 100, 37]) } else { rng.range(1, 6) as usize };
+    let names: [&[u8]; 6] = [b"X-Checksum", b"Server-Timing", b"etag", b"Expires", b"X-T", b"Content-MD5"];
+    (0..n)
+        .map(|_| {
+            let mut l = rng.pick(&names).to_vec();
+            l.push(b':');
+            if rng.chance(1, 2) {
+                l.push(b' ');
+            }
+            let vl = if rng.chance(1, 30) { rng.range(8000, 16000) as usize } else { rng.range(0, 40) as usize };
+            for _ in 0..vl {
+                l.push(rng.range(0x20, 0x7e) as u8);
+            }
+            l
+        })
+        .collect()
+}
+
 pub fn te_spelling(rng: &mut Rng) -> (Vec<u8>, Vec<u8>) {
     let names: [&[u8]; 3] = [b"Transfer-Encoding", b"transfer-encoding", b"TRANSFER-ENCODING"];
     let vals: [&[u8]; 5] = [b"chunked", b"Chunked", b"CHUNKED", b"chunkeD", b"identity, chunked"];
@@ -239,7 +270,8 @@ pub fn gen_valid(rng: &mut Rng, framing: u64, big: bool) -> RespSpec {
             if rng.chance(1, 4) {
                 last_repr = vec![b'0'; rng.range(2, 5) as usize];
             }
-            BodySpec::Chunked { chunks, last_repr, last_ext: chunk_ext(rng) }
+            let last_ext = chunk_ext(rng);
+            BodySpec::Chunked { chunks, last_repr, last_ext, trailers: gen_trailers(rng) }
         }
         1 => {
             let n = gen_len(rng, big);
